@@ -233,8 +233,28 @@ def check_case(label, data, info, res: Result):
             lab.parse(SHARED["prev"], parser=SHARED["other"])
         o2 = lab.parse(data, parser=SHARED["parser"])
         if SHARED["n"] % 8 == 0:
-            o2 = lab.parse(data, parser=SHARED["parser"])  # same input, second time
+            # same input a second time on the same object - after the caller has taken the
+            # first tree apart (it is the caller's to edit)
+            try:
+                r0 = getattr(SHARED["parser"], "result", None)
+                if isinstance(r0, list) and r0:
+                    for c in r0:
+                        if hasattr(c, "arguments") and isinstance(c.arguments, dict):
+                            c.arguments.clear()
+                        if hasattr(c, "children") and isinstance(c.children, list):
+                            del c.children[:]
+                    del r0[1:]
+            except Exception:
+                pass
+            o2 = lab.parse(data, parser=SHARED["parser"])
             res.count("same-input-twice-runs")
+        if SHARED["n"] % 8 == 4 and SHARED["prev"] is not None and len(SHARED["prev"]) > 0:
+            # a mutable buffer that the caller refills in place between two parses
+            buf = bytearray(SHARED["prev"])
+            lab.parse(buf, parser=SHARED["parser"])
+            buf[:] = data
+            o2 = lab.parse(buf, parser=SHARED["parser"])
+            res.count("refilled-buffer-runs")
         same = o2.verdict() == o.verdict()
         if same and o.verdict() is True:
             try:
